@@ -237,6 +237,13 @@ def run(ctx):
                 enc = check_encode(res, c, v, bucket=k)
                 if enc is not None:
                     check_decode(res, c, enc + b"zz", bucket=k)
+        # n_bytes(-1): "all remaining bytes" - the encoding is the value itself, decode takes everything that is left
+        c = tg.nbytes_case(p, -1)
+        for n in list(range(1, 20)) + [255, 256, 1000]:  # the empty value is outside the judged domain (C08: BufferEmptyError)
+            v = bytes(rng.randrange(256) for _ in range(n))
+            enc = check_encode(res, c, v, bucket=f"rest{min(n, 20)}")
+            if enc is not None:
+                check_decode(res, c, enc, bucket=f"rest{min(n, 20)}")
         c = tg.ipaddress_case(p)
         for _ in range(300):
             v = tg.gen_value(c.desc, rng)
@@ -294,6 +301,47 @@ def run(ctx):
             img = ln.to_bytes(4, "little") + bytes(rng.randrange(1, 256) for _ in range(cap + pad))
             check_decode(res, c, img + b"!", bucket=("img", cap, min(ln, cap + 4)))
         res.count("padded_fixstr_caps")
+
+    # ---- (e3) the string classes the driver itself builds from uploaded LEN/DATA templates ----------------------------------------------
+    # (what users actually encode / decode Logix strings with): layout LEN(4) | DATA[capacity] | pad to a multiple of 4
+    if ctx.shard == 0:
+        try:
+            from vlib import refproject as rpj
+            from vlib.logixbench import LogixScenario
+            caps3 = [1, 2, 3, 4, 5, 7, 8, 12, 16, 20, 40, 81, 82, 83, 84, 100] if quick else list(range(1, 131)) + [200, 255, 256, 480, 481, 482, 483, 484]
+            pb = rpj.ProjectBuilder(rng, fw=32)
+            for cap in caps3:
+                pb.tag(f"s{cap}", pb.string_type(f"STR_{cap}", cap))
+            sc = LogixScenario(rng, config=("fw32", 32, False, True), project=pb.done())
+            if not sc.ok():
+                res.ev()
+                res.violation("open-failed", f"LogixDriver.open() against a project of {len(caps3)} string types -> {sc.opened!r:.200}", None)
+            else:
+                for cap in caps3:
+                    info = sc.drv.tags.get(f"s{cap}") or {}
+                    lib = info.get("type_class")
+                    pad = (-(4 + cap)) % 4
+                    res.ev()
+                    if lib is None:
+                        res.violation("uploaded-string-class-missing", f"tag s{cap} (string type of capacity {cap}) was uploaded without a type class: {info!r:.160}", None)
+                        continue
+                    c = tg.TypeCase(f"uploaded string class, capacity {cap}", lib, ("lstr", 4 + cap + pad, cap))
+                    for n in sorted({0, 1, cap - 1, cap, cap + 1, cap + 9}):
+                        if n < 0:
+                            continue
+                        sv = tg.rand_str(rng, n, 1)
+                        enc = check_encode(res, c, sv, bucket=("upl", "lt" if n < cap else "eq" if n == cap else "gt", cap))
+                        if enc is not None:
+                            check_decode(res, c, enc + b"\x7f", bucket=("upl-rt", cap))
+                    for ln in (0, 1, cap, cap + 1, cap + 3):
+                        img = ln.to_bytes(4, "little") + bytes(rng.randrange(1, 256) for _ in range(cap + pad))
+                        check_decode(res, c, img + b"!", bucket=("upl-img", cap, min(ln, cap + 4)))
+                    res.count("uploaded_string_classes")
+            sc.close()
+        except Exception as e:  # noqa  (harness trouble with the scenario: never a verdict)
+            from vlib.bench import ScenarioDead
+            if not isinstance(e, ScenarioDead):
+                raise
 
     # ---- (f) generated composite layouts ---------------------------------------------------------
     ntypes = 250 if quick else 2500
